@@ -79,6 +79,9 @@ pub enum UpMode {
     Line,
     /// consume one line per invocation (judged only for duplication / order)
     OneLine,
+    /// every line is a script of reply operations (as for the Script method) run on the
+    /// request-less call object the upgraded handler is given
+    Script,
 }
 
 /// Gate used by Block(): a method body that parks until released (C13/C14/C15 workloads).
@@ -151,6 +154,36 @@ impl Interface for TIface {
                 }
                 Ok(Vec::new())
             }
+            UpMode::Script => loop {
+                let mut v = Vec::new();
+                let n = r.read_until(b'\n', &mut v).map_err(varlink::map_context!())?;
+                if n == 0 {
+                    return Ok(Vec::new());
+                }
+                if v.last() != Some(&b'\n') {
+                    return Ok(v);
+                }
+                let line = String::from_utf8_lossy(&v).trim().to_string();
+                for (i, op) in line.split(' ').filter(|o| !o.is_empty()).enumerate() {
+                    let res = match op {
+                        "c1" => {
+                            call.set_continues(true);
+                            Ok(())
+                        }
+                        "c0" => {
+                            call.set_continues(false);
+                            Ok(())
+                        }
+                        "r" => call.reply_struct(Reply::parameters(Some(json!({"i": i, "token": "UP"})))),
+                        "e" => call.reply_struct(Reply::error("org.verif.t.Failed", Some(json!({"i": i, "token": "UP"})))),
+                        "inv" => call.reply_invalid_parameter(format!("p{}", i)),
+                        "mnf" => call.reply_method_not_found(format!("m{}", i)),
+                        "mni" => call.reply_method_not_implemented(format!("m{}", i)),
+                        _ => Ok(()),
+                    };
+                    self.rec(Ev::Op { i, op: op.to_string(), ok: res.is_ok(), err: res.as_ref().err().map(perr).unwrap_or_default() });
+                }
+            },
             UpMode::Line | UpMode::OneLine => loop {
                 let mut v = Vec::new();
                 let n = r.read_until(b'\n', &mut v).map_err(varlink::map_context!())?;
